@@ -32,8 +32,10 @@ type Case struct {
 	// UserModelDir: directory of the user's model package (package um); "" = um. Go packages are
 	// often named by the tail of their directory (go-um, myum)
 	UserModelDir string `json:"user_model_dir,omitempty"`
-	SelfAutobind bool   `json:"self_autobind,omitempty"`
-	Again        bool   `json:"again,omitempty"`
+	// BoundEnums: enums bound to Go constants of the user's model package through @goModel/@goEnum
+	BoundEnums   bool `json:"bound_enums,omitempty"`
+	SelfAutobind bool `json:"self_autobind,omitempty"`
+	Again        bool `json:"again,omitempty"`
 	// MapInput: this input object type is bound to map[string]interface{}
 	MapInput string `json:"map_input,omitempty"`
 }
@@ -91,6 +93,12 @@ func Generate(c Case, keep bool) (dir string, f *vfrun.Failure) {
 		}
 		imp := "vh/" + filepath.ToSlash(rel) + "/" + umDir
 		_ = os.MkdirAll(filepath.Join(dir, umDir), 0o755)
+		if c.BoundEnums {
+			// enums bound to the user's own Go constants with @goModel / @goEnum (recipe "Enum
+			// binding"): two typed ones and an untyped one, beside whatever enums the schema has
+			_ = os.WriteFile(filepath.Join(dir, umDir, "enums.go"), []byte("package um\n\ntype Color int\n\nconst (\n\tColorRed Color = iota + 1\n\tColorGreen\n)\n\ntype Size string\n\nconst (\n\tSizeS Size = \"s\"\n\tSizeL Size = \"l\"\n)\n\nconst (\n\tLevelLow = iota + 1\n\tLevelHigh\n)\n"), 0o644)
+			_ = os.WriteFile(filepath.Join(dir, "zz_enums.graphqls"), []byte("directive @goModel(model: String, models: [String!]) on OBJECT | INPUT_OBJECT | SCALAR | ENUM | INTERFACE | UNION\n\ndirective @goEnum(value: String) on ENUM_VALUE\n\nenum VhColor @goModel(model: \""+imp+".Color\") {\n  RED @goEnum(value: \""+imp+".ColorRed\")\n  GREEN @goEnum(value: \""+imp+".ColorGreen\")\n}\n\nenum VhSize @goModel(model: \""+imp+".Size\") {\n  S @goEnum(value: \""+imp+".SizeS\")\n  L @goEnum(value: \""+imp+".SizeL\")\n}\n\nenum VhLevel @goModel(model: \"github.com/99designs/gqlgen/graphql.Int\") {\n  LOW @goEnum(value: \""+imp+".LevelLow\")\n  HIGH @goEnum(value: \""+imp+".LevelHigh\")\n}\n\nenum VhPlain {\n  ONE\n  TWO\n}\n\nextend type Query {\n  vhColor(in: VhSize, lv: VhLevel): VhColor\n  vhPlain: VhPlain\n}\n"), 0o644)
+		}
 		_ = os.WriteFile(filepath.Join(dir, umDir, "um.go"), []byte("package um\n\n// VhOverlap is a hand-written model.\ntype VhOverlap struct {\n\tA     *string\n\tB     int\n\tUpper *string\n}\n"), 0o644)
 		_ = os.WriteFile(filepath.Join(dir, "zz_user.graphqls"), []byte("type VhOverlap {\n  a: String\n  aAlias: String\n  b: Int!\n  bAlias: Int!\n  upper: String\n  UPPER: String\n}\n\nextend type Query {\n  vhOverlap: VhOverlap\n}\n"), 0o644)
 		if c.AutoBind {
@@ -375,6 +383,10 @@ func gen(t *rapid.T) Case {
 			vfrun.Label("user-model-package-named-by-directory-tail")
 		}
 		c.AutoBind = rapid.Bool().Draw(t, "autobind")
+		if rapid.Bool().Draw(t, "boundenums") {
+			c.BoundEnums = true
+			vfrun.Label("enums-bound-to-go-constants")
+		}
 		vfrun.Label("user-model-with-aliased-fields")
 		if c.AutoBind {
 			vfrun.Label("user-model-via-autobind")
